@@ -320,6 +320,29 @@ func (viso *VirtualISO) makeDirEntries(item *dirItem, joliet bool) error {
 		item.dirEntry = append(item.dirEntry, dotEntry, dotDotEntry)
 	}
 
+	// identifier must fit to directory record and identifiers of child directories must be unique (records of
+	// child directories are linked by identifier), mangling can break both for names which are different and
+	// short enough on source filesystem
+	usedDirIdentifiers := make(map[stringD1]string)
+	checkIdentifier := func(entry directoryEntry, name string) error {
+		if entry.size() > maxDirectoryEntrySize {
+			return fmt.Errorf("%s: name %q is too long to be represented in image", item.path, name)
+		}
+
+		if entry.FileFlags&dirFlagDir == 0 {
+			return nil
+		}
+
+		if usedBy, used := usedDirIdentifiers[entry.Identifier]; used {
+			return fmt.Errorf("%s: directory names %q and %q are the same after conversion to image charset",
+				item.path, usedBy, name)
+		}
+
+		usedDirIdentifiers[entry.Identifier] = name
+
+		return nil
+	}
+
 	// file entries
 	for _, fileItem := range item.files {
 		parts := 1
@@ -339,6 +362,10 @@ func (viso *VirtualISO) makeDirEntries(item *dirItem, joliet bool) error {
 				RecordingDateTime:    recordingTimestamp(fileItem.modTime),
 				VolumeSequenceNumber: 1,
 				ExtentLocation:       lba,
+			}
+
+			if err := checkIdentifier(entry, fileItem.name); err != nil {
+				return err
 			}
 
 			switch {
@@ -375,6 +402,10 @@ func (viso *VirtualISO) makeDirEntries(item *dirItem, joliet bool) error {
 			VolumeSequenceNumber: 1,
 			RecordingDateTime:    recordingTimestamp(dirItem.modTime),
 			Identifier:           makeIdentifier(dirItem.name, joliet),
+		}
+
+		if err := checkIdentifier(entry, dirItem.name); err != nil {
+			return err
 		}
 
 		if joliet {
